@@ -54,6 +54,7 @@ type Worker struct {
 	sizes       types.Sizes
 	stubFns     map[*ssa.Function]*ssa.Function
 	path        *Path
+	samplesTaken int
 }
 
 type deferred struct {
